@@ -439,6 +439,8 @@ def gen_history(rng, nops=30, comp=None, out=None, nbps=None, rich=False, rot=Tr
             buffered = False
         elif x < 0.90 and rot:
             op = {"op": "rot", "export": rng.random() < 0.5}
+            if rng.random() < 0.12:
+                op["same"] = True        # (named outputs) onto the name in use
             blocks_written = False
             if op["export"]:
                 buffered = False
